@@ -359,9 +359,19 @@ let op_logline opidx impl toks =
           Printf.sprintf "F-TICKS/eduroam/1.0#REALM=%s#VISCOUNTRY=SE#%sCSI=%s#RESULT=%s#\n" (s (fticks_realm rq))
             (if level = "2" then "VISINST=cl-name#" else "") (s (fticks_csi sha256 hmac_sha256 rq mode keyo)) (if rcode = 2 then "OK" else "FAIL") in
       pr "obs %d log %s\n" opidx (hex_of_bytes (bytes_of_string line));
+      (* the station field the line must carry: what Log.replylog_fields_of / fticks_csi make of the Calling-Station-Id
+         (C18_mac_*, C18_hash_input: the (HMAC-)SHA-256 over ALL its hex digits up to ';') *)
+      let station_field =
+        if kind = "reply" then (if rcode = 1 || rcode = 2 || rcode = 3 || rcode = 5 then s (replylog_fields_of sha256 hmac_sha256 rq rp (logfull = "1") mode keyo).rl_station else "")
+        else "CSI=" ^ s (fticks_csi sha256 hmac_sha256 rq mode keyo) ^ "#" in
       (match impl with
        | Some [ "log"; h ] ->
            let l = bytes_of_hex h in
+           let il = string_of_bytes l in
+           let contains a b = let la = String.length a and lb = String.length b in
+             let rec go i = i + lb <= la && (String.sub a i lb = b || go (i + 1)) in lb = 0 || go 0 in
+           if il <> "" && line <> "" && station_field <> "" && contains line station_field then   (* the form of the line that names the station *)
+             spec opidx "C18_station_pseudonym" (contains il station_field) (Printf.sprintf "the line does not carry the station field %S" station_field);
            (* no control character, no second line *)
            let body = match List.rev l with x :: r when int_of_n x = 10 -> List.rev r | _ -> l in
            spec opidx "C18_line_printable" (all_printable body) "";
